@@ -67,6 +67,12 @@ pub struct RunPlan {
     pub ops: Vec<RunOp>,
     pub exit: u8,
     pub run_dir_dot: bool,
+    /// record-only use: no command at all (empty argument list)
+    #[serde(default)]
+    pub no_command: bool,
+    /// products are recorded for the first `n % (len+1)` of the path arguments only (None: the same list as the materials)
+    #[serde(default)]
+    pub product_args: Option<u8>,
 }
 
 #[derive(Clone, Debug, Serialize, Deserialize)]
@@ -443,7 +449,7 @@ impl Property for C18 {
          dangling), path argument lists (root, '.', './t', sub-directories, single files, overlapping, non-normalised 't/./sub//'), \
          strip-prefix lists (none, matching, overlapping prefixes of different length, non-matching, empty), hash algorithms {default, \
          sha256, sha512, both, unknown}; for in_toto_run an operation list (create, append, delete, replace a file by other bytes of the same length keeping its modification time, echo to stdout/stderr, exit k) compiled to \
-         one sh -c command; for plain recording optionally a second recording of the same arguments in the same process after such an operation list changed the tree. Oracle: an independent walk (follows symlinks) with the harness' own SHA-256/512: every file reachable without entering a directory \
+         one sh -c command; one in_toto_run in five is record-only (empty command), and in a third of them the products are recorded for a prefix of the path arguments only; for plain recording optionally a second recording of the same arguments in the same process after such an operation list changed the tree. Oracle: an independent walk (follows symlinks) with the harness' own SHA-256/512: every file reachable without entering a directory \
          twice on one descent path must be recorded with its true digest, and any further entry must be a cyclic duplicate (reachable when a \
          directory may be entered twice) with a true digest - the statement does not say where a cyclic descent stops; two different files under one key => Err; unknown \
          algorithm => Err; in_toto_run: materials = reference snapshot before, products = snapshot after, byproducts = constructed \
@@ -493,8 +499,8 @@ impl Property for C18 {
             proptest::collection::vec(arg, 1..4),
             proptest::option::weighted(0.5, proptest::collection::vec(any::<u8>(), 0..3)),
             prop_oneof![3 => Just(Algs::Default), 2 => Just(Algs::Sha256), 1 => Just(Algs::Sha512), 2 => Just(Algs::Both), 1 => Just(Algs::Unknown)],
-            proptest::option::weighted(0.3, (proptest::collection::vec(op.clone(), 0..4), prop_oneof![3 => Just(0u8), 1 => any::<u8>()], any::<bool>()).prop_map(|(ops, exit, run_dir_dot)| RunPlan { ops, exit, run_dir_dot })),
-            proptest::option::weighted(0.3, proptest::collection::vec(op, 1..3).prop_map(|ops| RunPlan { ops, exit: 0, run_dir_dot: false })),
+            proptest::option::weighted(0.3, (proptest::collection::vec(op.clone(), 0..4), prop_oneof![3 => Just(0u8), 1 => any::<u8>()], any::<bool>(), prop_oneof![4 => Just(false), 1 => Just(true)], proptest::option::weighted(0.3, any::<u8>())).prop_map(|(ops, exit, run_dir_dot, no_command, product_args)| RunPlan { ops, exit, run_dir_dot, no_command, product_args })),
+            proptest::option::weighted(0.3, proptest::collection::vec(op, 1..3).prop_map(|ops| RunPlan { ops, exit: 0, run_dir_dot: false, no_command: false, product_args: None })),
         )
             .prop_map(|(tree, args, lstrip, algs, run, again)| Spec { tree, args, lstrip, algs, run, again })
             .boxed();
@@ -612,10 +618,20 @@ impl Property for C18 {
             Some(plan) => {
                 o.class("in_toto_run");
                 let (cmd, want_out, want_err) = run_script(plan);
-                let cmd_refs: Vec<&str> = cmd.iter().map(|s| s.as_str()).collect();
+                let cmd_refs: Vec<&str> = if plan.no_command { vec![] } else { cmd.iter().map(|s| s.as_str()).collect() };
+                // products may be recorded for a prefix of the path arguments only
+                let nprod = plan.product_args.map(|n| n as usize % (args.len() + 1)).unwrap_or(args.len());
+                let product_args: Vec<String> = args[..nprod].to_vec();
+                let product_refs: Vec<&str> = product_args.iter().map(|s| s.as_str()).collect();
+                if plan.no_command {
+                    o.class("in_toto_run:record-only");
+                }
+                if nprod != args.len() {
+                    o.class("in_toto_run:product-paths-differ-from-material-paths");
+                }
                 let signer = if plan.exit % 2 == 0 { Some(crate::gen::keys::private(&crate::gen::keys::KeySpec::Ed { seed: 33, pkcs8: true })) } else { None };
-                let lib = guarded(|| in_toto_run("stepname", if plan.run_dir_dot { Some(".") } else { None }, &arg_refs, &arg_refs, &cmd_refs, signer.as_deref(), alg_list.as_deref(), ls_refs.as_deref()));
-                let after = reference(&case, &args, &lstrip, &spec.algs, &mut feat);
+                let lib = guarded(|| in_toto_run("stepname", if plan.run_dir_dot { Some(".") } else { None }, &arg_refs, &product_refs, &cmd_refs, signer.as_deref(), alg_list.as_deref(), ls_refs.as_deref()));
+                let after = reference(&case, &product_args, &lstrip, &spec.algs, &mut feat);
                 let changed = matches!((&before.strict, &after.strict), (Ok(a), Ok(b)) if a != b);
                 if changed {
                     o.class("run-changed-tree");
@@ -639,13 +655,17 @@ impl Property for C18 {
                                 compare("run-products", Ok(artifacts_from_lib(&l.products)), &after, &feat, &mut o);
                             }
                             let bp = ByprodSpec::from_lib(&l.byproducts);
-                            if bp.return_value != Some(plan.exit as i32) {
+                            if plan.no_command {
+                                // nothing ran: there is no exit status or output to report
+                            } else if bp.return_value != Some(plan.exit as i32) {
                                 o.fail("C18/run/return-value", format!("{:?}", bp.return_value), format!("{}", plan.exit));
                             }
-                            if bp.stdout.as_deref() != Some(want_out.as_str()) {
+                            if plan.no_command {
+                            } else if bp.stdout.as_deref() != Some(want_out.as_str()) {
                                 o.fail("C18/run/stdout", format!("{:?}", bp.stdout), format!("{:?}", want_out));
                             }
-                            if bp.stderr.as_deref() != Some(want_err.as_str()) {
+                            if plan.no_command {
+                            } else if bp.stderr.as_deref() != Some(want_err.as_str()) {
                                 o.fail("C18/run/stderr", format!("{:?}", bp.stderr), format!("{:?}", want_err));
                             }
                             if l.name != "stepname" {
